@@ -44,3 +44,21 @@ type DetailIn struct {
 type Addr struct{ City string }
 
 type AddrRow struct{ City string }
+
+type InnerRow struct{ Addr *Addr }
+
+type Deep struct {
+	Inner *InnerRow
+	Name  string
+}
+
+type Flat struct {
+	Other *AddrRow
+	Name  string
+}
+
+// Node is copied with the names e (source) and elem (destination).
+type Node struct {
+	Sub  []*Node
+	Name string
+}
